@@ -157,7 +157,21 @@ class Ranges:
             elif d.kind == 'call':
                 t = b.blocks[d.bb]['t']
                 c = ((t.get('f') or {}).get('fn') or {}).get('def')
-                r = self.contract(c) if c and c.startswith(self.ctx.F.crate + '::') else (INF, INF)
+                idx0 = len(b.blocks[d.bb]['st'])
+                args = [self.of_operand(b, d.bb, idx0, a) for a in (t.get('args') or [])]
+                last = (c or '').split('::')[-1]
+                if c and c.startswith(self.ctx.F.crate + '::'):
+                    r = self.contract(c)
+                elif last == 'clamp' and len(args) == 3 and 'Ord' in c:
+                    r = (args[1][0], args[2][1])
+                elif last == 'max' and len(args) == 2 and 'Ord' in c:
+                    los = [x[0] for x in args if x[0] is not None]
+                    r = (max(los) if los else None, None if None in (args[0][1], args[1][1]) else max(args[0][1], args[1][1]))
+                elif last == 'min' and len(args) == 2 and 'Ord' in c:
+                    his = [x[1] for x in args if x[1] is not None]
+                    r = (None if None in (args[0][0], args[1][0]) else min(args[0][0], args[1][0]), min(his) if his else None)
+                else:
+                    r = (INF, INF)
             else:
                 r = (INF, INF)
             # refinement by the comparisons on every path from this definition to the use
